@@ -25,7 +25,7 @@ class Gen:
         self.next_id = 1
         self.next_tid = 10
         self.ghosts = []     # tables created or dropped inside sessions: read back by name after the session ends
-        self.classes = set()
+        self.classes = G.ClassSet(self.h)
 
     def fresh_ids(self, n):
         ids = list(range(self.next_id, self.next_id + n))
@@ -116,9 +116,63 @@ def gen_case(rng, feats):
             used[nt_.tid] = []
             g.h.x(nt_.create_sql(), nt_.create_coq())
             before = g.observe()
-        mode = rng.choice(["session", "session", "auto-fail", "batch"])
+        mode = rng.choice(["session", "session", "auto-fail", "batch", "overlap", "rb-delete-then-dup"])
         t = rng.choice(g.tables)
-        if mode == "session":
+        if mode == "overlap":
+            # an older transaction stays open while a younger unit runs on another table (or the older one only
+            # reads); the two end differently
+            ka, kb = 300 + round_, 400 + round_
+            others = [x for x in g.tables if x is not t]
+            g.h.begin(ka)
+            if others and rng.random() < 0.6:
+                ta = rng.choice(others)
+                rows = [g.row(ta, i) for i in g.fresh_ids(rng.choice([1, 2]))]
+                g.h.q(ka, G.insert_sql(ta, rows), G.insert_coq(ta, rows), sorted_=True)
+            elif rng.random() < 0.7:
+                q = select_all(t)
+                g.h.q(ka, q.sql(), q.coq(), sorted_=True)
+            b_commits = rng.random() < 0.5
+            cols = [(i, c[1]) for i, c in enumerate(t.cols)]
+            def younger():
+                r = rng.random()
+                if r < 0.5:
+                    where = G.rand_expr(rng, "BOOLEAN", cols, 1, {"isnull"}) if rng.random() < 0.7 else None
+                    return G.delete_sql(t, where), G.delete_coq(t, where)
+                rows = [g.row(t, i) for i in g.fresh_ids(rng.choice([1, 2]))]
+                return G.insert_sql(t, rows), G.insert_coq(t, rows)
+            if rng.random() < 0.4:
+                sql, coq = younger()
+                g.h.x(sql, coq, sorted_=True)            # autocommit while the older transaction is open
+                b_commits = True
+            else:
+                g.h.begin(kb)
+                for _ in range(rng.choice([1, 2])):
+                    sql, coq = younger()
+                    g.h.q(kb, sql, coq, sorted_=True)
+                if b_commits:
+                    g.h.commit(kb)
+                else:
+                    g.h.rollback(kb, drop=rng.random() < 0.3)
+            mid = g.observe()
+            if b_commits:
+                g.h.rollback(ka, drop=rng.random() < 0.3)
+            else:
+                g.h.commit(ka)
+            for tt in g.tables:
+                used[tt.tid] = list(range(1, g.next_id))
+        elif mode == "rb-delete-then-dup":
+            # a key whose DELETE was rolled back is still taken
+            if t.pk is not None and used[t.tid]:
+                key = rng.choice(used[t.tid])
+                k = 500 + round_
+                g.h.begin(k)
+                where = ("bin", "=", ("col", 0), G.lit_int(key))
+                g.h.q(k, G.delete_sql(t, where), G.delete_coq(t, where), sorted_=True)
+                g.h.rollback(k, drop=rng.random() < 0.3)
+                rows = [g.row(t, key)]
+                cond = ("if-err", len(g.h.rust))
+                g.h.x(G.insert_sql(t, rows), G.insert_coq(t, rows), sorted_=True)
+        elif mode == "session":
             k = round_ + 1
             g.h.begin(k)
             local_used = list(used[t.tid])
@@ -199,7 +253,7 @@ def gen_case(rng, feats):
             checks.append((cond[0], cond[1], before, after))
         before = after
     rust, coq = g.h.render()
-    return Case(rust, coq, "history", {"classes": sorted(g.classes), "checks": checks})
+    return Case(rust, coq, "history", dict(g.classes.meta(), checks=checks))
 
 
 def oracle(case, il):
@@ -213,7 +267,7 @@ def oracle(case, il):
             continue
         for b, a in zip(before, after):
             if segs[b] != segs[a]:
-                return "state changed across an aborted unit: read %d gave %s, read %d gave %s" % (b, segs[b][:200], a, segs[a][:200])
+                return ("state changed across an aborted unit: read %d gave %s, read %d gave %s" % (b, segs[b][:200], a, segs[a][:200]), a)
     return None
 
 
